@@ -40,7 +40,10 @@ def worker(k, jobs, seeds, out):
                     env = dict(os.environ, VERIF_REPO=wt, VERIF_OUT=f"{BASE}/out{k}", VERIF_SEED=sd)
                     try:
                         r = sh(f"/venv/bin/python harness/check.py {p} --tier quick --no-proof", cwd=VERIF, timeout=3000, env=env)
-                        per[f"{p}@{sd}"] = any(l.startswith("VIOLATION") for l in r.stdout.splitlines())
+                        lines = r.stdout.splitlines()
+                        viol = any(l.startswith("VIOLATION") for l in lines)
+                        broke = any(l.startswith("  the check itself failed") for l in lines)
+                        per[f"{p}@{sd}"] = "harness-error" if broke else viol
                     except subprocess.TimeoutExpired:
                         per[f"{p}@{sd}"] = "timeout"
             out[sid] = per
